@@ -536,6 +536,13 @@ func master(args []string) {
 			exitCode = 2
 		}
 	}
+	var zeroExpected []string
+	for _, ex := range p.Expected {
+		if st.Probes[ex] == 0 && st.Faults[ex] == 0 {
+			zeroExpected = append(zeroExpected, ex)
+			fmt.Printf("NOTE: probe %q stayed at zero on this tree: the explored runs never exercised that mechanism (see evidence)\n", ex)
+		}
+	}
 	for _, rq := range p.Required {
 		if st.Probes[rq] == 0 && st.Faults[rq] == 0 {
 			fmt.Printf("INCONCLUSIVE: required probe %q stayed at zero: the workload does not reach the mechanism\n", rq)
@@ -584,6 +591,7 @@ func master(args []string) {
 		"trial_kinds":                      st.Kinds,
 		"commands":                         st.Cmds,
 		"known_findings_replayed":          knownReplayed,
+		"expected_probes_at_zero":          zeroExpected,
 		"known_finding_hits":               st.KnownHits,
 		"workers":                          n,
 		"real_vs_stub":                     realVsStub,
